@@ -43,6 +43,7 @@ class GzipShim(object):
         self.device = device
 
     def GzipFile(self, filename=None, mode=None, *a, **k):
+        # a writer may also open the file itself and hand it over as fileobj: that is the device as well (see open_shim)
         return gzip.GzipFile(filename="", mode=mode or "wb", fileobj=self.device, mtime=0)
 
     def open(self, *a, **k):
@@ -57,6 +58,20 @@ def build_results(kind):
         dicts = [oracle.build(s_, data).to_dict() for s_ in states]
         chains = {0: [(dicts[(i * i + 3 * i) % len(dicts)], -1.0 - (i % 17) * 0.25) for i in range(1101)], 1: [(dicts[i % len(dicts)], -2.0 - (i % 5)) for i in range(7)]}
         return traces.make_results(data, ["S"], chains), None
+    if kind in ("six-chains", "nine-chains"):
+        # many chains (writers that group chains into blocks show only beyond their group size); chain 0 first and last
+        data = traces.named_data(3, grid=3, outlier_prob=0.2)
+        states = oracle.all_states(3, outliers=True)
+        nch = 6 if kind == "six-chains" else 9
+        chains = {}
+        k = 5
+        for c in range(nch):
+            chains[c] = []
+            for e in range(1 + (c % 2)):
+                k = (k * 29 + 7) % len(states)
+                chains[c].append((oracle.build(states[k], data), -1.0 - 0.41 * ((k * 5) % 11)))
+        order = list(range(nch)) if kind == "six-chains" else list(range(1, nch)) + [0]
+        return traces.make_results(data, ["S"], chains, insertion_order=order), None
     if kind in ("four-chains", "many-entries", "big-data"):
         data = traces.named_data(4, dims=2, grid=(101 if kind == "big-data" else 5), outlier_prob=0.2)
         states = oracle.all_states(4, outliers=True)
@@ -94,11 +109,23 @@ def write_with_device(kind, device, d):
         with open(cf, "w") as fh:
             fh.write("mutation_id\tcluster_id\n" + "".join("%s\t%d\n" % r for r in crows))
     old = pt.gzip
+    target = os.path.join(d, "unused.pkl.gz")
+
+    def open_shim(file, mode="r", *a, **k):
+        if file == target and "w" in mode:
+            return device
+        return open(file, mode, *a, **k)
+
     pt.gzip = GzipShim(device)
+    pt.open = open_shim
+    device.close = lambda: None  # several writers may be stacked on the one device
     try:
-        pt.create_main_run_output(cf, os.path.join(d, "unused.pkl.gz"), results)
+        pt.create_main_run_output(cf, target, results)
     finally:
         pt.gzip = old
+        del pt.open
+    if os.path.exists(target) and os.path.getsize(target):
+        raise RuntimeError("harness: the writer bypassed the in-memory device")
 
 
 def run_readers(path, outdir):
@@ -209,11 +236,11 @@ def stream_len(kind):
 
 def main(tier, seed):
     chk = Check("C20", tier, seed, level="fault_enumeration")
-    chk.rule = ("traces {one chain, two chains, clustered} written by the real create_main_run_output into an in-memory device; EVERY byte prefix 0..len-1 read by "
+    chk.rule = ("traces {one chain, two chains, clustered, six chains, nine chains (chain 0 written last), one chain of 1101 entries} written by the real create_main_run_output into an in-memory device; EVERY byte prefix 0..len-1 read by "
                 "write_map_results, write_consensus_results and write_topology_report (must raise, or give output byte-identical to the complete file's); ENOSPC "
                 "injected at EVERY write-call boundary of the writer; a case is non-trivial when the prefix is non-empty")
     chk.assumptions = ["gzip header time stamp fixed to 0 so the stream is reproducible", "crash = truncation at a byte; torn writes inside one write call are covered because every byte prefix is enumerated"]
-    kinds = ["one-chain", "two-chains", "clustered"] + (["four-chains", "many-entries", "big-data"] if tier == "thorough" else [])
+    kinds = ["one-chain", "two-chains", "clustered", "six-chains", "nine-chains"] + (["four-chains", "many-entries", "big-data"] if tier == "thorough" else [])
     items = []
     info = {}
     for k in kinds:
